@@ -91,7 +91,10 @@ def run_raire(case, rec, monitor):
         except Exception:
             pass
         rec.count("contest_object_reused_after_other_cvrs")
-    ok, res = rec.guard(monitor, compute_raire_assertions, contest, cvrs, winner, asn_func, False, sink, 0)
+    agap = case.get("agap", 0)
+    if agap:
+        rec.count("runs_with_a_positive_allowed_gap")
+    ok, res = rec.guard(monitor, compute_raire_assertions, contest, cvrs, winner, asn_func, False, sink, agap)
     if not ok:
         return None
     out = {"result": res, "cands": cands, "winner": winner, "counter": irv.counter_of(prof), "tot": tot,
